@@ -207,8 +207,24 @@ def source_phase_factor(chk, mod):
             chk.prove(f'{pre}/accepted=>ratio-or-inverse-within-1e-8-of-an-integer[path{i}]', hy, z3.Or(*cands), timeout=60)
             chk.prove(f'{pre}/the-two-quantities-tested-are-q-and-1/q[path{i}]', hy + [fp > 0],
                       z3.And(rounds[0][1] == q, rounds[-1][1] == 1 / q) if len(rounds) == 2 else rounds[0][1] == q, timeout=60)
-        chk.prove(f'{pre}/returns-round(max(q,1))>=1[path{i}]', hy + [fp > 0],
-                  z3.And(rt >= 1, z3.ToReal(rt) - z3.If(q >= 1, q, 1) <= core.tz(0.5), z3.If(q >= 1, q, 1) - z3.ToReal(rt) <= core.tz(0.5)), timeout=60)
+        mxq = z3.If(q >= 1, q, 1)
+        ent = [e for e in p.log if e[0] in ('pyround', 'pytrunc') and isinstance(r, SymInt) and z3.eq(e[2], r.t)]
+        if not isinstance(r, SymInt):
+            chk.prove(f'{pre}/returns-round(max(q,1))>=1[path{i}]', hy + [fp > 0],
+                      z3.And(rt >= 1, z3.ToReal(rt) - mxq <= core.tz(0.5), mxq - z3.ToReal(rt) <= core.tz(0.5)), timeout=60)
+        elif len(ent) != 1:
+            raise core.Unsupported('_source_phase_factor: the returned integer is not the result of one builtin rounding of a real')
+        else:
+            kind, xt, n = ent[0]
+            # (1) what is rounded is max(q, 1); (2) the rounding used is to the nearest integer -- stated over an arbitrary real X
+            # with the rounding's own defining constraint (linear mixed arithmetic: a wrong rounding mode yields a model at once)
+            chk.prove(f'{pre}/returns-round(max(q,1))>=1: rounds max(q,1)[path{i}]', hy + [fp > 0], xt == mxq, timeout=60)
+            X, N = z3.Real('X_rounded'), z3.Int('N_result')
+            NR = z3.ToReal(N)
+            defn = (z3.And(X - NR <= core.tz(0.5), NR - X <= core.tz(0.5)) if kind == 'pyround'
+                    else z3.If(X >= 0, z3.And(NR <= X, X < NR + 1), z3.And(NR >= X, X > NR - 1)))
+            chk.prove(f'{pre}/returns-round(max(q,1))>=1: to the nearest integer[path{i}]', [X >= 1, defn],
+                      z3.And(N >= 1, X - NR <= core.tz(0.5), NR - X <= core.tz(0.5)), timeout=30, meta={'phase_factor_rounding': kind})
     chk.decided(f'{pre}/accepting-paths-exist', rets >= 1)
     # non-scalar inputs are refused
     for which in ('frequency', 'pulse'):
@@ -367,8 +383,11 @@ def simulation_failures(n, seed, limit=3):
         begin, end = cuts[0::2] + shift, cuts[1::2] + shift
         ratio = rng.choice([0.25, 1 / 3, 0.5, 1, 2, 3, 4, 8])
         sign = rng.choice([-1, 1])
-        fpulse = 14.0
-        f = sign * ratio * fpulse
+        # pulse frequencies and kHz values whose quotient is not exact in binary floating point (0.15 kHz / 50 Hz = 2.9999999999999996),
+        # and ratios whose distance from the integer is 4e-9 (inside the documented tolerance of about 1e-8) on either side
+        fpulse = float(rng.choice([14.0, 50.0, 25.0, 7.0, 60.0, 12.5, 10.0]))
+        # (the code compares |q - round(q)| resp. |1/q - round(1/q)| with 1e-8 absolutely: stay at 4e-9 on that scale)
+        f = sign * ratio * fpulse * (1 + float(rng.choice([0.0, 0.0, 4e-9, -4e-9])) / max(ratio, 1 / ratio))
         unit_a = rng.choice(['deg', 'rad'])
         conv = (lambda d: d) if unit_a == 'deg' else np.deg2rad
         funit = rng.choice(['Hz', 'kHz'])
@@ -379,7 +398,8 @@ def simulation_failures(n, seed, limit=3):
                             beam_position=sc.scalar(float(conv(beam)), unit=unit_a), phase=sc.scalar(float(conv(phase)), unit=unit_a),
                             slit_begin=sc.array(dims=['slit'], values=conv(begin), unit=unit_a), slit_end=sc.array(dims=['slit'], values=conv(end), unit=unit_a))
         pf = sc.scalar(fpulse, unit='Hz')
-        desc = {'id': f'case{i}', 'index': i, 'seed': seed, 'n_slits': nslits, 'frequency_ratio': float(sign * ratio), 'angle_unit': str(unit_a)}
+        desc = {'id': f'case{i}', 'index': i, 'seed': seed, 'n_slits': nslits, 'frequency_ratio': float(sign * ratio), 'angle_unit': str(unit_a),
+                'frequency': f'{fval!r} {funit}', 'pulse_frequency': f'{fpulse!r} Hz'}
         try:
             to = ch.time_offset_open(pulse_frequency=pf).to(unit='s').values
             tc = ch.time_offset_close(pulse_frequency=pf).to(unit='s').values
@@ -478,14 +498,52 @@ FINDING_PREDICATES = {
 }
 
 
+def phase_factor_failures():
+    """real DiskChopper._source_phase_factor on ratios that are integers (or inverse integers) mathematically but not in binary
+    floating point, and on ratios 4e-9 away from the integer: the number of repetitions must be the nearest integer (at least 1)"""
+    import scipp as sc
+    from vf.realrun import real_module
+    dc = real_module('chopper.disk_chopper')
+    fails = []
+    for fpulse in (14.0, 50.0, 25.0, 7.0, 60.0, 12.5, 10.0):
+        for n in (1, 2, 3, 4, 5, 6, 7, 8):
+            for sign in (1, -1):
+                for delta in (0.0, 4e-9, -4e-9):
+                    for unit, scale in (('Hz', 1.0), ('kHz', 1e-3)):
+                        fval = sign * (n + delta) * fpulse * scale
+                        ch = dc.DiskChopper(axle_position=sc.vector([0, 0, 10.0], unit='m'), frequency=sc.scalar(fval, unit=unit),
+                                            beam_position=sc.scalar(0.0, unit='deg'), phase=sc.scalar(0.0, unit='deg'),
+                                            slit_begin=sc.array(dims=['slit'], values=[0.0], unit='deg'), slit_end=sc.array(dims=['slit'], values=[10.0], unit='deg'))
+                        try:
+                            got = ch._source_phase_factor(sc.scalar(fpulse, unit='Hz'))
+                        except Exception as e:  # noqa: BLE001
+                            got = f'{type(e).__name__}'
+                        if got != n:
+                            fails.append({'frequency': f'{fval!r} {unit}', 'pulse_frequency': f'{fpulse} Hz', 'ratio': n + delta, 'expected_repetitions': n, 'got': got})
+                            if len(fails) >= 3:
+                                return fails
+    return fails
+
+
 def replay(rec):
+    """replay of ONE clause: a failure of another clause (in particular the listed known findings) does not count as a reproduction"""
     name = rec['obligation']
-    if 'slit' in name or 'overlap' in name:
+    f = rec.get('meta', {}).get('replay') or (rec.get('model') if isinstance(rec.get('model'), dict) else None) or {}
+    if '/bounded/' in name and 'index' in f and 'rotating-disk' in name or '/bounded/known/' in name and 'index' in f and 'seed' in f and 'n_slits' in f:
+        fails = simulation_failures(int(f['index']) + 1, int(f.get('seed', 60)), limit=10 ** 6)
+        hit = [x for x in fails if x['index'] == int(f['index'])]
+        return {'reproduced': bool(hit), 'cases': hit[:1]}
+    if 'slit' in name and 'validation' in name or 'overlap' in name or '_check_edge' in name:
         n, fails = validation_failures(limit=3)
         return {'reproduced': bool(fails), 'cases': fails[:2]}
-    fails = simulation_failures(300, 60, limit=3)
+    if '_source_phase_factor' in name or '_is_int_or_inverse_int' in name:
+        fails = phase_factor_failures()
+        return {'reproduced': bool(fails), 'cases': fails[:2]}
+    fails = simulation_failures(300, 60, limit=10 ** 6)
     if 'duplicate' in name or 'each-opening-once' in name:
-        hit = [f for f in fails if f.get('known_shape') == 'duplicate-across-pulses']
-        return {'reproduced': bool(hit), 'cases': hit[:1]}
-    hit = [f for f in fails if f.get('known_shape') != 'duplicate-across-pulses']
+        hit = [x for x in fails if x.get('known_shape') == 'duplicate-across-pulses']
+    elif 'from_disk_chopper' in name:
+        hit = [x for x in fails if 'expanded over' in x.get('problem', '') or 'from_disk_chopper' in x.get('problem', '')]
+    else:   # time_offset_open / close / open_duration clauses: failures of the per-pulse openings only
+        hit = [x for x in fails if 'expanded over' not in x.get('problem', '') and 'from_disk_chopper' not in x.get('problem', '')]
     return {'reproduced': bool(hit), 'cases': hit[:1]}
